@@ -44,6 +44,8 @@ CONTROLS = {
     "advance(2)": fn("advance", [], [["t", 2]]),
     "C->advance(1)": ["->", C, fn("advance", [], [["t", 1]])],
     "C->advance(3)": ["->", C, fn("advance", [], [["t", 3]])],
+    # the number of lines comes from the line itself (#1 holds the record index): every firing has its own n
+    "C->advance(int(#1))": ["->", C, fn("advance", [], [fn("int", [], [["h", 1]])])],
     "last()->push": ["->", fn("last"), LPUSH],
     "last.nocontrib()->push": ["->", fn("last", ["nocontrib"]), LPUSH],
     "last()": fn("last"),
